@@ -122,7 +122,8 @@ CLAIMED = {
              "history of assignments (ints, doubles as exact IEEE values incl. NaN / inf / ulp neighbours, pairs, strings through a model of stoll / strtod, enums) keeps the stored "
              "value in its domain, that a rejected assignment throws and changes nothing, that an accepted one reads back converted, that mismatched reads / unknown names / duplicate "
              "registrations throw, and (decide +kernel over the whole table) that all 285 defaults lie in their domains and ids are consistent (19 theorems). Exact correspondence on "
-             "exhaustive histories over a boundary alphabet + the factory walk (type_id, clone equality and independence, behavioural probes).",
+             "exhaustive histories over a boundary alphabet + the factory walk (type_id, clone equality and independence, behavioural probes). "
+             "Gap-closing round (33 further theorems, 52 in all): every arithmetic operator= overload, the narrowing reads value<int32 | uint64 | float>() (exact on the declared domains, wrap-around witness replayed), mixed-type make_*, operator==, factory_t as a history machine (add rejects duplicates, get of an unknown id is null, get hands out a clone, ids(regex) in registration order, got objects independent); all 190 typed parameter reads of the library are RE-SCANNED from the sources on every run and proved well typed and exact against the 310 registered parameters (decide over the generated table); rejected_is_noop per kind incl. enum, enum histories stay in domain, lookup_exact_name, clone_configuration_equal / clone_independent. Static scan on every run: every clone() is the canonical copy construction; user-provided copy operations, uncopied members or bases, reference / pointer / shared_ptr members of cloned classes break the check with the class name (reviewed allow-lists). Probes: lsearch0 (clone of a USED object), lsearchk, tuner, weak learners (clone after fit), generators.",
         note=NOTE_COMMON + "'The clone behaves identically' beyond equal parameters is a behavioural probe per factory (testing); write+read goes through C15's codec and is checked by correspondence here."),
     "C01": dict(
         category="proof", technique=TECH_GEN, design="DESIGN.md §4 C01",
@@ -251,7 +252,8 @@ CLAIMED = {
              "min_reduce give the same value for every chunk -> worker assignment in exact arithmetic (min: lexicographic (score, feature index) tie-break as coded since 62472c9 / 5de0896, exact ties allowed, no uniqueness hypothesis; the old score-only rule is proved schedule dependent); minimize with per-call line-search clones depends on its own arguments only; every mutable member / non-const "
              "static / pointer member found by a scan of the CURRENT sources (Gen/MutableState.lean, regenerated on every run) is in a reviewed allow-list (decide). Tested, labelled as testing: the same calls alone vs from 2..16 threads "
              "on one shared solver / loss / dataset / fitted model must be bit-identical; fits under pools of 1..16 threads, restricted affinity and injected delays must select the same features; thorough tier under ThreadSanitizer. "
-             "Fit-level comparisons use well-conditioned problems only; near-tie flips caused by re-association (margins ~1e-16) and zero-scale stop flips are recognised by the oracle, counted and skipped.",
+             "Fit-level comparisons use well-conditioned problems only; near-tie flips caused by re-association (margins ~1e-16) and zero-scale stop flips are recognised by the oracle, counted and skipped. "
+             "Gap-closing round (34 obligations): the source scan reports file:line and also finds function-local statics, thread_locals, namespace-scope non-const globals, mutable members of ANY class and members holding objects with mutable state; its 91-entry reviewed allow-list is mirrored into Lean (decide +kernel) and a new hit is the first broken line before anything runs. Sharing theorems on the extended models of C09 / C10 / C11 / C13 / C17: two live activities (tasks, or inline calls made by the caller with tnum 0) belong to different calls or use different slots, so buffers owned by a per-call object are never shared - while buffers owned by the SHARED object collide on the inline path (kernel-checked reachable state); no task outlives its call; the tune batch as coded (live reads) and the whole ml::result_t are the same for every order of a batch's tasks (necessity witness for reads of in-flight trials); the BFS tree fit is independent of the feature -> worker assignment at every node; the select loop visits the same features for any two pool sizes (kernel-checked dropped features for the per-worker-range variant). Runs: shared predict of fitted linear / gboost models on the inline path, concurrent minimize of functions of DIFFERENT sizes for every solver id, fits over pools 1, 2, 3, 4, 5, 7, 16 x every feature-count residue.",
         note=NOTE_COMMON + "The regex-level scan is not a C++ parser and the allow-list reasons are a human review; TSan observes only the schedules that happened."),
 }
 
